@@ -91,6 +91,31 @@ func blocking(kind string) bool {
 	return kind != "early" && kind != "edge"
 }
 
+// warmFarDeadline runs one trivial script under a deadline 200 s away. The grid's
+// own deadlines are near; whatever a run with a distant deadline leaves behind in
+// the process (the grace period is derived from the distance) must not reach
+// later runs. It is called before the grid and before every replay.
+func warmFarDeadline(root string) string {
+	gmu.Lock()
+	gseq++
+	dir := filepath.Join(root, fmt.Sprintf("warm%d", gseq))
+	gmu.Unlock()
+	os.MkdirAll(filepath.Join(dir, "work"), 0o777)
+	defer os.RemoveAll(dir)
+	file := tsh.WriteScript(dir, "far.txt", "exists f\n-- f --\nx\n")
+	t := tsh.NewT("goexit", false)
+	p := testscript.Params{Files: []string{file}, Deadline: time.Now().Add(200 * time.Second), WorkdirRoot: filepath.Join(dir, "work")}
+	t.RunRoot(func() { testscript.RunT(t, p) })
+	if len(t.Results) != 1 || t.Results[0].Verdict != tsh.Pass {
+		log := t.RootFatal
+		if len(t.Results) == 1 {
+			log = t.Results[0].Log
+		}
+		return "far-deadline-run: a script that only checks a file, run with a deadline 200 s away, does not pass: " + log
+	}
+	return ""
+}
+
 func runGrid(root string, g gcase) string {
 	gmu.Lock()
 	gseq++
@@ -349,6 +374,13 @@ func realMain() {
 		}
 		// real clock, real processes: every assertion is one-sided, so a violation seen
 		// on any run is genuine, but it need not show on every run
+		if c.Grid == nil {
+			if v := warmFarDeadline(root); v != "" {
+				return []kit.V{{Key: "far-deadline-run", What: v, Case: c}}
+			}
+			return nil
+		}
+		warmFarDeadline(root)
 		for try := 0; try < 3; try++ {
 			if v := runGrid(root, *c.Grid); v != "" {
 				key := "grid=" + c.Grid.String()
@@ -365,7 +397,11 @@ func realMain() {
 	// part (i)
 	xs := exploreX(r)
 
-	// part (ii): all grid cases concurrently (they mostly wait for their deadlines)
+	// part (ii): first one run with a distant deadline, then all grid cases
+	// concurrently (they mostly wait for their deadlines)
+	if v := warmFarDeadline(root); v != "" {
+		r.Violation("far-deadline-run", v, kase{Kind: "grid"})
+	}
 	cases := gridCases(r.Thorough())
 	var wg sync.WaitGroup
 	sem := make(chan struct{}, 8)
